@@ -3,14 +3,20 @@ ENTRY = dict(
     runner="C25", pkg="./cmd/c25", corr=["Corr.C25Corr"], n=dict(quick=1, thorough=1), runner_timeout=2400,
     rule="every (version, suite) that the crypto/tls server of the toolchain negotiates with uTLS, taken from the real suite "
          "table (TLS 1.0/1.1: 11 suites each, TLS 1.2: 22, TLS 1.3: 3): a uTLS client (spec offering exactly that pair) "
-         "handshakes over loopback TCP; 1 session per pair (thorough 6), each two (thorough three) rounds of 2-4 (3-5) client writes (sizes from "
-         "{0,1,2,15,16,17,1186..1188,16383..16385,32768} or random up to 2^15) read back by the server with random buffer "
-         "sizes, 2-4 server writes read by UConn.Read with random buffer sizes, and in TLS 1.3 a KeyUpdate (random "
-         "update_requested) between rounds; Go-side oracle: bytes equal, no error. One case per session: type, version, length "
-         "and explicit nonce of every record the client wrote vs the model. Tampering: 3 (thorough 12) fresh sessions per pair "
-         "with one bit flipped (body or header) or one byte dropped in what the client receives: must end in an error with only "
-         "a prefix of the sent bytes delivered. Distinct by (suite, version, session); non-trivial when more than 3 records.",
-    trusted_base=["hooks/verif_c27.go (suite table, record state), hooks/verif_c25.go (VerifSendKeyUpdate: test equipment)",
+         "handshakes over loopback TCP; 1 session per pair (thorough 6) of client writes (sizes from {0,1,2,15,16,17,1186..1188,"
+         "16383..16385,32768} or random up to 2^15) read back by the server with random buffer sizes, server writes read by "
+         "UConn.Read with random buffer sizes, TLS 1.3 KeyUpdates in between; Go-side oracle: bytes equal, no error; one case per "
+         "session: type, version, length, explicit nonce of every record the client wrote vs the model. TLS 1.3 additionally against "
+         "the uTLS server (it has the hooks): histories of 8 (thorough 24) key updates alternating peer/client, random "
+         "update_requested, data both ways after each; zero-length application data records interleaved with data (> 40 in total, "
+         "runs up to 32). Tampering on live sessions: bit flip in body / first header / dropped byte (3 per pair, thorough 12), TLS "
+         "1.3 record truncated to 0,1,15..18,40 bytes (thorough 0..63). Record level on forged connections (fresh receiver per "
+         "experiment, UConn.Read, panic = failure) for EVERY suite of the table incl. the weak CBC suites x versions 1.0-1.2: the first "
+         "record truncated to every shorter length (header adjusted), the stream cut at every offset, one bit flipped at every byte; "
+         "empty-record patterns with the model predicting bytes delivered / error. Distinct by (suite, version, session/pattern); "
+         "non-trivial when more than 3 records.",
+    trusted_base=["hooks/verif_c27.go (suite table, record state), hooks/verif_c25.go (VerifSendKeyUpdate), hooks/verif_c28.go (VerifWriteEmptyRecord): test equipment",
+                  "the uTLS server (same record layer) as the peer for key-update and empty-record histories",
                   "crypto/tls server of the Go toolchain as the compliant peer",
                   "AEAD / CBC / RC4 / HMAC laws as premises (prims_ok); ideal-AEAD premise for the tamper theorem (labelled)"],
     assumes=["primitives obey prims_ok (satisfiable: toy instance); tamper statement: Open accepts only sealed ciphertexts (ideal)",
